@@ -84,7 +84,7 @@ func C10(c *core.Ctx) {
 	var w *workerArgs
 	tops := ev.Enumerate(func() eval.Value {
 		w = bindWorker(c, fn, eval.Sym("L"), nil)
-		if _, err := ev.CallFunc(fn, w.args...); err != nil {
+		if _, err := ev.CallFuncBound(fn, w.args...); err != nil {
 			panic(err)
 		}
 		if len(w.out.Sent) != 1 {
@@ -395,7 +395,7 @@ func c10Writer(c *core.Ctx) {
 			args = append(args, eval.Opaque{Why: "writer"})
 		}
 	}
-	if _, err := ev.CallFunc(fn, args...); err != nil {
+	if _, err := ev.CallFuncBound(fn, args...); err != nil {
 		c.Und("R3/writeOutput", fn.Pos(), "cannot evaluate the writer on a symbolic record: %v", err)
 		return
 	}
@@ -447,7 +447,7 @@ func c10Writer(c *core.Ctx) {
 			args2 = append(args2, eval.Opaque{Why: "writer"})
 		}
 	}
-	if _, err := ev2.CallFunc(fn, args2...); err != nil {
+	if _, err := ev2.CallFuncBound(fn, args2...); err != nil {
 		c.Und("R3/writeOutput/out-of-order-batch", fn.Pos(), "cannot evaluate the writer: %v", err)
 		return
 	}
